@@ -4,7 +4,7 @@
 (* three small configurations, within a depth bound.                            *)
 EXTENDS Engine
 
-CONSTANTS MaxDepth, MaxK, Fin   \* Fin: allow Finalize (liveness config switches re-setup off instead)
+CONSTANTS MaxDepth, MaxK
 
 C1 == [kind |-> "fixed", dt |-> 2, tmax |-> 3, policy |-> 0, interval |-> 1, ts |-> <<0, 3>>, qs |-> <<>>, death |-> -2]
 C2 == [kind |-> "fixed", dt |-> 1, tmax |-> 2, policy |-> 2, interval |-> 2, ts |-> <<2>>, qs |-> <<>>, death |-> -2]
@@ -21,7 +21,7 @@ LNext ==
      \/ GetProgress(e)
      \/ IsComplete(e)
      \/ GetOutput(e)
-     \/ (Fin /\ Finalize(e))
+     \/ Finalize(e)
      \/ Undefined(e)
 
 LSpec == Init /\ [][LNext]_vars
